@@ -31,6 +31,8 @@ struct track
     const struct xcm_addr_ip *local_ip;
     struct xcm_addr_ip local_ip_data;
     uint16_t local_port;
+    bool bound4;
+    bool bound6;
     int64_t scope;
 
     struct xcm_addr_ip *remote_ips;
@@ -202,7 +204,12 @@ static void track_connect_next(struct track *track)
 	return;
     }
 
-    if (track->local_ip != NULL) {
+    /* a socket is bound once; it keeps its local address across
+       the attempts made with it */
+    bool *bound = track_get_current_family(track) == AF_INET ?
+	&track->bound4 : &track->bound6;
+
+    if (track->local_ip != NULL && !*bound) {
 	struct sockaddr_storage laddr;
 	int64_t scope = track_get_current_scope(track);
 
@@ -219,6 +226,8 @@ static void track_connect_next(struct track *track)
 	    track_connect_next(track);
 	    return;
 	}
+
+	*bound = true;
     }
 
     ut_assert(track->fd_reg_id == -1);
